@@ -7,5 +7,6 @@ func init() {
 		"measurements / spans issued before that instant are allowed to be forwarded or dropped; only those issued afterwards are required",
 		"RegisterCallback is only given instruments created through the same meter handle; option callbacks only on identities created once",
 		"a hang is detected by the 20 s per-case watchdog of the kit (a normal case takes milliseconds)",
+		"the SDK hands Collect's context on to the callbacks (that is how a callback knows which reader's collection it serves); nothing is asserted about the data of instruments whose name the SDK refuses or of callbacks registered on them, nor about whether such rejections are reported",
 	))
 }
